@@ -369,6 +369,39 @@ def main():
                     ops += [{'op': 'set', 'v': g.value(tb_), 'freeze': fz}, {'op': 'w'}]
                 ops.append({'op': 'f'})
             casesB.append(dict(id=f'{name}:down{j}', root=root, opts=opts, ops=ops))
+        # records that differ from their predecessor ONLY in fields the target schema drops, followed by a
+        # new value and by repeats of earlier values (dictionary entries and references must stay aligned)
+        na_of = {st['name']: len(st['fields']) for st in sa['structs']}
+        gB = streamlib.Gen(sb, rng, max_depth=3)
+
+        def b_only(t, v, depth=0):
+            k = t['k']
+            if v is None or k == 'prim' or depth > 5:
+                return v
+            if k == 'array':
+                return [b_only(t['elem'], x, depth + 1) for x in v]
+            if k == 'multimap':
+                mm = sb['multimaps'][t['id']]
+                return [[kv[0], b_only(mm['value'], kv[1], depth + 1)] for kv in v]
+            st = sb['structs'][t['id']]
+            if st['oneof']:
+                return v if v[0] == 0 else [v[0], b_only(st['fields'][v[0] - 1]['type'], v[1], depth + 1)]
+            keep = na_of.get(st['name'], 0)
+            out = []
+            for i, f in enumerate(st['fields']):
+                if i >= keep:
+                    out.append(None if (f['optional'] and rng.chance(1, 3)) else gB.value(f['type'], 3))
+                else:
+                    out.append(b_only(f['type'], v[i], depth + 1))
+            return out
+        tbr = {'k': 'struct', 'id': by_name(sb, root, 'structs')}
+        for j in range(2):
+            fz = j == 0
+            v0 = gB.value(tbr); v1 = b_only(tbr, v0); v2 = gB.value(tbr); v3 = b_only(tbr, v2)
+            seq = [v0, v1, v2, v0, v3, v1, v2]
+            ops = sum(([{'op': 'set', 'v': v, 'freeze': fz}, {'op': 'w'}] for v in seq), []) + [{'op': 'f'}]
+            opts = dict(compression=0, maxframe=0, maxdict=0, flags=0, descriptor=rng.chance(1, 2), userdata={}, schema=counts_a)
+            casesB.append(dict(id=f'{name}:down-bonly{j}', root=root, opts=opts, ops=ops))
         outsB2, _, _ = hb.run_go(casesB)
         rdA = [dict(id=c['id'], root=root, opts={}, mode='readonly', stream=o['stream']) for c, o in zip(casesB, outsB2)]
         outsA2, _, _ = ha.run_go(rdA)
